@@ -1,5 +1,5 @@
 CONSTANTS
-  Fonts = {"nc", "c", "np", "cp", "n", "x"}
+  Fonts = {"nc", "c", "np", "cp", "n", "x", "e"}
   MaxSub = 2
   Full = FALSE
 INIT Init
